@@ -152,7 +152,7 @@ impl C08 {
                 let ten: Vec<Vec<usize>> = x.iter().cloned().chain(y.iter().map(|l| l.iter().map(|v| v + cx).collect())).collect();
                 ensure(dec_ic(&r)? == ten && r.values.target == cx + cy, || format!("tensor({:?},{:?}) = {:?} -> {}", x, y, dec_ic(&r), r.values.target))?;
                 // label-valued coproduct always succeeds
-                let (la, lb) = (a.map_semifinite(&sf(&labels_for(*cx))).unwrap(), b.map_semifinite(&sf(&labels_for(*cy))).unwrap());
+                let (la, lb) = (a.map_semifinite(&sf(&labels_for(*cx))).ok_or("map_semifinite is None for a label array of the right length")?, b.map_semifinite(&sf(&labels_for(*cy))).ok_or("map_semifinite is None for a label array of the right length")?);
                 let r = la.coproduct(&lb).ok_or("coproduct over labels is None")?;
                 let e: Vec<Vec<String>> = x.iter().map(|l| l.iter().map(|&v| labels_for(*cx)[v].clone()).collect()).chain(y.iter().map(|l| l.iter().map(|&v| labels_for(*cy)[v].clone()).collect())).collect();
                 ensure(decode_seg_sf(&r, "coproduct over labels")? == e, || "coproduct over labels".into())?;
